@@ -1,9 +1,13 @@
-(** C07 -- eBPF-to-eBPF calls preserve the caller's frame and callee-saved registers (interpreter).
-    Statements are about the ISA step, which the regenerated interpreter loop equals on every
-    reachable state (C01_step_refines). Proofs: theories/InterpCalls.v. *)
+(** C07 -- eBPF-to-eBPF calls preserve the caller's frame and callee-saved registers.
+    Interpreter: statements about the ISA step, which the regenerated interpreter loop equals on every
+    reachable state (C01_step_refines); proofs in theories/InterpCalls.v.  x86-64 JIT: the sequence emit_local_call emits
+    (regenerated into coq/gen/JitFrame.v) under the stack machine X86Stk.v: r6..r9 come back -- and the frame pointer is not
+    lowered, which is known finding D18 (theories/JitFrameProofs.v). *)
 From Coq Require Import ZArith List Bool.
 From RbpfV Require Import MachInt Ebpf Cases Mem InterpDefs WellFormed Verifier Isa MemLemmas Interp InterpProofs
   InterpArmsCall InterpCalls.
+From RbpfV Require Import X86Sem X86Stk JitFrameProofs.
+From RbpfV.gen Require Import JitFrame.
 Import ListNotations.
 Open Scope Z_scope.
 
@@ -40,6 +44,22 @@ Theorem C07_depth_limit : forall E reg pc stacks m st',
   isa_step E (reg, pc, 8, stacks, m) = Err ECallDepth.
 Proof. exact call_depth_step. Qed.
 
+(** x86-64 JIT: around the call, rbx, r13, r14, r15 (eBPF r6..r9) are saved on the machine stack and restored, whatever the
+    callee did to them, as long as it returns with rsp back and leaves the four words alone; no register other than rsp is
+    changed before the call -- so the callee is entered with the caller's frame pointer rbp = eBPF r10 (D18) *)
+Theorem C07_jit_local_call : forall R m, (forall r, 0 <= R r < 2 ^ 64) -> 64 <= R 4 ->
+  gen_jit_local_call = lc_pre ++ XCallPc :: lc_post /\
+  exists R1 m1, krun lc_pre (R, m) = Some (R1, m1) /\
+    R1 4 = R 4 - 40 /\ (forall r, r <> 4 -> R1 r = R r) /\
+    load8 m1 (R 4 - 8) = R 3 /\ load8 m1 (R 4 - 16) = R 13 /\ load8 m1 (R 4 - 24) = R 14 /\ load8 m1 (R 4 - 32) = R 15 /\
+    forall R2 m2, R2 4 = R 4 - 40 ->
+      load8 m2 (R 4 - 8) = R 3 -> load8 m2 (R 4 - 16) = R 13 -> load8 m2 (R 4 - 24) = R 14 -> load8 m2 (R 4 - 32) = R 15 ->
+      exists R3, krun lc_post (R2, m2) = Some (R3, m2) /\
+        R3 4 = R 4 /\ R3 3 = R 3 /\ R3 13 = R 13 /\ R3 14 = R 14 /\ R3 15 = R 15 /\
+        forall r, ~ In r [3; 4; 13; 14; 15] -> R3 r = R2 r.
+Proof. exact jit_local_call. Qed.
+
 Print Assumptions C07_call.
 Print Assumptions C07_call_return.
 Print Assumptions C07_depth_limit.
+Print Assumptions C07_jit_local_call.
